@@ -2,7 +2,7 @@
    Statements only; proofs live in proofs/ProjectProofs.v.
    "The document is not modified" has no counterpart in a value model (there is no write
    operation to rule out): it is checked on the implementation by the harness (partial). *)
-From JP Require Import Base Json Syntax Eval Project ProjectSpec ProjectProofs.
+From JP Require Import Base Json Syntax Eval Project ProjectSpec ProjectProofs ProjectNested.
 
 (* what the relative queries selected below the match: each selection's parts are its location
    relative to the match (C03_location), pairwise distinct and non-nested, ascending per array *)
@@ -50,6 +50,45 @@ Theorem C19_root :
       end.
 Proof. exact ProjectProofs.root_spec. Qed.
 Print Assumptions C19_root.
+
+(* the same two clauses on the widest domain: selections in any order, repeated or nested in one
+   another (a node selected whole before or after its descendants), provided that below an already
+   selected node only member names follow - ProjectSpec.selections_deep_ok, which contains both
+   selections_ok and every keys-only list of selections *)
+Theorem C19_relative_deep :
+  forall (E : env) rf rs (exprs : list query) (m : jmatch) (sels : list jmatch),
+    is_container (m_val m) = true -> wf_json (m_val m) = true ->
+    selected E rf rs exprs (m_val m) = Ok sels ->
+    located (m_val m) sels ->
+    selections_deep_ok (map m_parts sels) = true ->
+    exists j, select_one E rf rs ProjRelative exprs m = Ok (Some j) /\
+      match project_tree (m_val m) (map m_parts sels) with
+      | Some t => json_eq j t = true
+      | None => sels = [] /\ j = JObj []
+      end.
+Proof. exact ProjectNested.relative_deep. Qed.
+Print Assumptions C19_relative_deep.
+
+Theorem C19_root_deep :
+  forall (E : env) rf rs (exprs : list query) (d : json) (m : jmatch) (sels : list jmatch),
+    is_container (m_val m) = true -> wf_json d = true ->
+    node_at d (m_parts m) = Some (m_val m) ->
+    selected E rf rs exprs (m_val m) = Ok sels ->
+    located (m_val m) sels ->
+    selections_deep_ok (map m_parts sels) = true ->
+    exists j, select_one E rf rs ProjRoot exprs m = Ok (Some j) /\
+      match project_root d (m_parts m) (map m_parts sels) with
+      | Some t => json_eq j t = true
+      | None => sels = [] /\ j = JObj []
+      end.
+Proof. exact ProjectNested.root_deep. Qed.
+Print Assumptions C19_root_deep.
+
+Theorem C19_domains :
+  forall ls, (selections_ok ls = true -> selections_deep_ok ls = true) /\
+             (keys_only ls = true -> selections_deep_ok ls = true).
+Proof. exact ProjectNested.deep_domains. Qed.
+Print Assumptions C19_domains.
 
 (* matches that are not containers, and matches for which nothing is selected, produce no projection *)
 Theorem C19_none :
